@@ -20,12 +20,17 @@ class Stop(Exception):
 class Bits:
     """bit cursor over a fixed packet, or (synthesis) a stream that grows on demand through `chooser`"""
 
-    def __init__(self, bits: str, chooser=None):
+    def __init__(self, bits: str, chooser=None, rewind_negative=False):
         self.bits = bits
         self.pos = 0
         self.chooser = chooser
+        self.rewind_negative = rewind_negative   # synthesis only: build packets an implementation that lets the
+        #                                          cursor run backwards on a negative length would consume exactly
 
     def take(self, n, info):
+        if n < 0 and self.rewind_negative and self.chooser is not None and self.pos + n >= 0:
+            self.pos += n
+            return ""
         if n < 0:
             raise Stop("negative-length", f"{info.get('name')}: computed length {n}")
         if self.pos + n > len(self.bits):
@@ -175,6 +180,8 @@ def decode_param(m: Model, pname, bits: Bits, res: Result):
     res.lengths.append((pname, ln, form))
     info["length"] = ln
     fbits = bits.take(ln, info)
+    if ln < 0:   # only reachable in the rewinding synthesis mode
+        return (b"" if k == "bin" else ""), (None if k == "bin" else b"")
     if k == "bin":
         nbytes = (ln + 7) // 8
         return (int(fbits, 2).to_bytes(nbytes, "big") if ln else b""), None
@@ -204,9 +211,9 @@ def parse_entries(m: Model, cname, bits: Bits, res: Result, depth=0):
         res.items.append((name, value, raw))
 
 
-def decode(doc_or_model, packet: bytes, chooser=None, prefix_bits=None) -> Result:
+def decode(doc_or_model, packet: bytes, chooser=None, prefix_bits=None, rewind_negative=False) -> Result:
     m = doc_or_model if isinstance(doc_or_model, Model) else Model(doc_or_model)
-    bits = Bits(refbits.bits_of(packet) if prefix_bits is None else prefix_bits, chooser)
+    bits = Bits(refbits.bits_of(packet) if prefix_bits is None else prefix_bits, chooser, rewind_negative)
     res = Result()
     current = m.doc["root"]
     try:
